@@ -164,14 +164,14 @@ func c41Compare(s *orcStep, res *run.Result, after *orcState, outcome string) {
 		j := after.boardIndex(pre.Boards[x].Key)
 		if j < 0 {
 			reported = true
-			orcViol(res, "C41.other-board-vanished", orcSig(s, "C41", "other-board-vanished", rel+":"+s.Call.Kind+":"+outcome),
+			orcViol(res, "C41.other-board-vanished", orcSig(s, "C41", "other-board-vanished", outcome+":"+rel),
 				fmt.Sprintf("edit addressed to board %q: board %s (%s) no longer exists\n%s", s.Call.Board, pre.Boards[x].Key, rel, c41Describe(s, after)))
 			continue
 		}
 		a, bb := pre.snap(x).Pi, after.snap(j).Pi
 		if a != bb {
 			reported = true
-			orcViol(res, "C41.other-board-changed", orcSig(s, "C41", "other-board-changed", c41ChangeClass(pre.snap(x), after.snap(j))+":"+rel+":"+s.Call.Kind+":"+outcome),
+			orcViol(res, "C41.other-board-changed", orcSig(s, "C41", "other-board-changed", outcome+":"+c41ChangeClass(pre.snap(x), after.snap(j))+":"+rel),
 				fmt.Sprintf("edit addressed to board %q (%s) changed board %s (%s):\n%s\n%s", s.Call.Board, outcome, pre.Boards[x].Key, rel, proj.Diff(a, bb), c41Describe(s, after)))
 		}
 	}
